@@ -167,6 +167,16 @@ pub fn gen(seed: u64, idx: u64, _tier: Tier) -> Case {
             ops.push(Op::HFlush { h: 1 });
             ops.push(Op::HDrop { h: 1 });
         }
+        // the same for the mini stream: a small stream is removed and three new ones take over
+        // its mini sectors (a mini sector that ended up on the free list twice is handed to two
+        // of them; the final audit re-reads the first)
+        ops.push(Op::RemoveStream("/m1".into()));
+        for (i, name) in ["/x1", "/x2", "/x3"].iter().enumerate() {
+            ops.push(Op::HCreate { h: 1, path: name.to_string() });
+            ops.push(Op::HWriteAll { h: 1, len: rng.range(900, 1_900) as usize, nonce: 110 + i as u32 });
+            ops.push(Op::HFlush { h: 1 });
+            ops.push(Op::HDrop { h: 1 });
+        }
         ops.push(Op::FlushFile);
         c.ops = ops;
         c.params.insert("torn_seed".into(), (rng.next_u64() >> 2) as i64);
@@ -192,6 +202,10 @@ pub fn gen(seed: u64, idx: u64, _tier: Tier) -> Case {
     if idx % 3 == 2 {
         c.params.insert("durable".into(), 1);
     }
+    if idx % 4 == 1 {
+        // the caller does not retry a failed set_len and carries on with the handle
+        c.params.insert("set_len_carry_on".into(), 1);
+    }
     c
 }
 
@@ -200,6 +214,9 @@ struct HState {
     path: String,
     /// expected content of the stream as this handle sees it; None = unknown
     content: Option<Vec<u8>>,
+    /// second admissible content: after a set_len that FAILED and was not retried the stream
+    /// has either its old or its new length (the call is not promised to be atomic)
+    alt: Option<Vec<u8>>,
 }
 
 struct RunOut {
@@ -228,6 +245,7 @@ fn execute(case: &Case, plan: &[Fault], heal_after_first_failure: bool) -> RunOu
     let mut torn_fired = false;
     let mut drop_fault = false;
     let retry_set_len = case.param("retry_set_len", 1) == 1;
+    let set_len_carry_on = case.param("set_len_carry_on", 0) == 1;
     let mut out = RunOut { n_events: 0, violation: None, fired: Default::default(), verified_after_fault: 0, inconclusive: 0, trace: 0 };
     crate::driver::set_clock(crate::ops::T { secs: 1_600_000_000, nanos: 0 });
     let fin = |out: &mut RunOut, disk: &SimDisk| {
@@ -312,7 +330,7 @@ fn execute(case: &Case, plan: &[Fault], heal_after_first_failure: bool) -> RunOu
             let h = op.handle();
             // the handle's own idea of its position, before the call
             let mut pos_before: Option<u64> = None;
-            if let (Some(h), Op::HWrite { .. } | Op::HWriteAll { .. } | Op::HRead { .. } | Op::HReadFull { .. } | Op::HFillBuf { .. } | Op::HSeek { .. }) = (h, op) {
+            if let (Some(h), Op::HWrite { .. } | Op::HWriteAll { .. } | Op::HRead { .. } | Op::HReadFull { .. } | Op::HFillBuf { .. } | Op::HSeek { .. } | Op::HSetLen { .. }) = (h, op) {
                 if lib.handles[h].is_some() {
                     if let Res::Num(p) = lib.exec(&Op::HPos { h }) {
                         pos_before = Some(p);
@@ -351,6 +369,10 @@ fn execute(case: &Case, plan: &[Fault], heal_after_first_failure: bool) -> RunOu
                     let range: Option<(u64, u64)> = match op {
                         Op::HRead { .. } | Op::HFillBuf { .. } | Op::HSeek { .. } => Some((pb, pb)),
                         Op::HReadFull { n, .. } => Some((pb, pb + *n as u64)),
+                        // set_len "does not change the current read/write position within the
+                        // stream, unless the stream is truncated to before the current position";
+                        // a failed one may or may not have truncated
+                        Op::HSetLen { n, .. } => Some((pb.min(*n), pb)),
                         _ => None,
                     };
                     if let (Some((lo, hi)), true) = (range, lib.handles[hh].is_some()) {
@@ -396,7 +418,7 @@ fn execute(case: &Case, plan: &[Fault], heal_after_first_failure: bool) -> RunOu
                         } else {
                             Some(Vec::new())
                         };
-                        hs[*h] = Some(HState { path: path.clone(), content });
+                        hs[*h] = Some(HState { path: path.clone(), content, alt: None });
                     } else if is_err {
                         tainted.insert(path.clone());
                         hs[*h] = None;
@@ -413,6 +435,20 @@ fn execute(case: &Case, plan: &[Fault], heal_after_first_failure: bool) -> RunOu
                             Res::Unit => Some(*len),
                             _ => None,
                         };
+                        if let (Some(m), Some(p), Some(a)) = (accepted, pos_before, st.alt.as_mut()) {
+                            let p = p as usize;
+                            if p > a.len() {
+                                // beyond the shorter variant: only the longer one remains possible
+                                st.alt = None;
+                            } else {
+                                if a.len() < p + m {
+                                    a.resize(p + m, 0);
+                                }
+                                a[p..p + m].copy_from_slice(&crate::prng::pattern(*nonce, 0, m));
+                            }
+                        } else if accepted.is_none() {
+                            st.alt = None;
+                        }
                         match (accepted, pos_before, st.content.as_mut()) {
                             (Some(m), Some(p), Some(c)) => {
                                 let data = crate::prng::pattern(*nonce, 0, m);
@@ -438,6 +474,17 @@ fn execute(case: &Case, plan: &[Fault], heal_after_first_failure: bool) -> RunOu
                     if let Some(st) = hs[*h].as_ref() {
                         known.remove(&st.path);
                     }
+                    if is_err && set_len_carry_on && !fired.is_empty() && hs[*h].as_ref().map(|st| st.content.is_some() && st.alt.is_none()).unwrap_or(false) {
+                        // not retried: what the handle's writes accepted is still owed by the next
+                        // Ok flush, with the old or the new length (nothing promises that a failed
+                        // call is atomic); the byte-level image rules stand down for this run
+                        unrecovered += 1;
+                        let st = hs[*h].as_mut().unwrap();
+                        let mut a = st.content.clone().unwrap();
+                        a.resize(*n as usize, 0);
+                        st.alt = Some(a);
+                        break;
+                    }
                     if is_err && (!retry_set_len || fired.is_empty() || tries >= 4) {
                         // a resize that failed for good may have left the stream half-way between
                         // the mini stream and regular sectors: give the object up
@@ -452,6 +499,9 @@ fn execute(case: &Case, plan: &[Fault], heal_after_first_failure: bool) -> RunOu
                     } else if let Some(st) = hs[*h].as_mut() {
                         if let Some(c) = st.content.as_mut() {
                             c.resize(*n as usize, 0);
+                        }
+                        if let Some(a) = st.alt.as_mut() {
+                            a.resize(*n as usize, 0);
                         }
                     }
                 }
@@ -528,6 +578,16 @@ fn execute(case: &Case, plan: &[Fault], heal_after_first_failure: bool) -> RunOu
                         if let Some(want) = &st.content {
                             let any_fault: u64 = lib.disk.0.borrow().fired.values().sum();
                             match lib.exec(&Op::ReadWhole(st.path.clone())) {
+                                Res::Bytes(b) if st.alt.as_ref() == Some(&b) => {
+                                    // the failed set_len did take effect: from now on that is the content
+                                    let path = st.path.clone();
+                                    let st = hs[*h].as_mut().unwrap();
+                                    st.content = st.alt.take();
+                                    known.remove(&path);
+                                    if any_fault > 0 {
+                                        out.verified_after_fault += 1;
+                                    }
+                                }
                                 Res::Bytes(b) => {
                                     if &b != want {
                                         let first = b.iter().zip(want.iter()).position(|(x, y)| x != y);
